@@ -44,6 +44,295 @@ def make_streams(ctx, exe):
     return streams
 
 
+def xharness():
+    return build.link("zvh_c09x", ["zvh_c09x.c"], "plain")
+
+
+def run_robust(exe, lines, nchunks=8, timeout=900):
+    """answers aligned with the lines; None for a line on which the process hung (alarm) or died - the lines after it go to a fresh process"""
+    def one(chunk):
+        out, rest = [], list(chunk)
+        while rest:
+            rc, o, err = frames.run_lines(exe, rest, timeout=timeout)
+            o = [x for x in o if x != "TIMEOUT"]
+            if len(o) >= len(rest):
+                out += o[:len(rest)]; break
+            out += o + [None]
+            rest = rest[len(o) + 1:]
+        return out
+    return frames.parallel(one, frames.split_chunks(lines, nchunks))
+
+
+def pledge_histories(ctx):
+    """pledged size against what is really supplied, over explicit call histories with flushes (a flush cuts a job at any size, so with worker
+    threads no worker sees the whole frame), small inputs (0 .. 600 KB), pledges above and below, in one call and in chunks, new and legacy entry
+    points; the verdict is tied to Walker.Pledge (driver op pledgeh) and a successful frame must announce and hold exactly what was supplied."""
+    rng = zv.Rng(ctx.seed * 104729 + 909)
+    exe = xharness()
+    K = 524288
+    hist = []       # (pledge, [(dir, n)], workers, jobSize, nofcs, api)
+
+    def shapes(sup):
+        h = sup // 2
+        return [[("f", sup)], [("c", h), ("f", sup - h)], [("f", h), ("c", sup - h)], [("f", h), ("e", sup - h)], [("c", sup), ("f", 0)], [("f", sup), ("e", 0)],
+                [("c", sup)], [("c", h), ("e", sup - h)], [("f", sup // 3), ("f", sup // 3), ("c", sup - 2 * (sup // 3))], [("e", sup)]]
+    # directed grid: worker threads, pledge on both sides of the smallest job size, supplied 0 .. 600 KB
+    for workers in (1, 2):
+        for pl in (600000, K + 1, 700000, 2000000, K, 300000, 100):
+            for sup in (0, 1, 2, 99, 300000, 400000, K, 600000):
+                if pl == sup:
+                    continue
+                for sh in rng.sample(shapes(sup), 3 if ctx.quick() else 10):
+                    hist.append((pl, sh, workers, rng.choice([0, K]), 0, 0))
+    # exact pledges must keep working, pledges of the legacy initialiser, content-size flag off, unknown size
+    for _ in range(60 if ctx.quick() else 1500):
+        sup = rng.choice([0, 1, 7, 1000, 131072, 131073, 300000, 400000, K - 1, K, K + 1, 600000])
+        pl = rng.choice([sup, sup, sup + 1, max(0, sup - 1), 2 * sup + 3, sup // 2, sup + K, 600000, 700000, K + 1, -1])
+        sh = rng.choice(shapes(sup))
+        if rng.random() < 0.3:
+            sh = [(rng.choice("ccf"), n) for n in [rng.choice([0, 1, sup // 4, sup // 3]) for _ in range(rng.randint(1, 4))]]
+            rest = sup - sum(n for d, n in sh)
+            sh = sh + [(rng.choice("cfe"), rest)] if rest >= 0 else [("f", sup)]
+        hist.append((pl, sh, rng.choice([0, 1, 1, 2, 3]), rng.choice([0, K]), int(rng.random() < 0.2), rng.choice([0, 0, 1, 2])))
+    # a burst on one context: empty first jobs that fail in their worker, back to back with other frames (the context must stay usable: no hang, no crash)
+    for i in range(120 if ctx.quick() else 1200):
+        wk = 1 + i % 2
+        hist.append([(600000, [("f", 0), ("e", 0)], wk, 0, 0, 0), (700000, [("c", 0), ("f", 0)], wk, K, 0, 0), (600000, [("f", 0), ("e", 1)], wk, K, 0, 0),
+                     (-1, [("f", 0), ("e", 5)], wk, 0, 0, 0), (600000, [("f", 0)], wk, 0, 0, 2)][i % 5])
+
+    def effective(sh, api):
+        """the ZSTD_compressStream2 calls a history amounts to: the legacy entry points take input through ZSTD_compressStream only (no call at all for
+        an empty input), ZSTD_flushStream / ZSTD_endStream carry none"""
+        if api == 0:
+            return list(sh)
+        out = []
+        for d, n in sh:
+            if n > 0: out.append(("c", n))
+            if d != "c": out.append((d, 0))
+        return out
+    lines, mlines, effs = [], [], []
+    for pl, sh, workers, js, nofcs, api in hist:
+        cs = ",".join("%s%d" % dn for dn in sh) or "-"
+        eff = effective(sh, api); effs.append(eff)
+        lines.append("pledgeh %d %s %d %d %d %d" % (pl, cs, workers, js, nofcs, api))
+        mlines.append("pledgeh %d %s" % (-1 if (api == 1 and pl == 0) else pl, ",".join("%s%d" % dn for dn in eff) or "-"))      # ZSTD_initCStream_srcSize: 0 means unknown
+    # frames abandoned while their last (possibly empty) job is running, then the context reset and used again: interleaved with the others
+    # (an empty first job that fails in its worker, and an abandoned one, must both leave the context usable: a hang or a crash is a violation)
+    for _ in range(12 if ctx.quick() else 200):
+        k = rng.randrange(len(lines) + 1)
+        sup = rng.choice([0, 0, 1, 300000]); wk = rng.choice([1, 1, 2])
+        cs = rng.choice(["f0,a%d" % sup, "c0,a%d" % sup, "f%d,a0" % sup, "c%d,f0,a0" % sup])
+        hist.insert(k, (rng.choice([600000, 700000, -1]), None, wk, rng.choice([0, K]), 0, 0)); effs.insert(k, None)
+        lines.insert(k, "pledgeh %d %s %d %d 0 0" % (hist[k][0], cs, wk, hist[k][3])); mlines.insert(k, "pledgeh -1 -")
+    cres = run_robust(exe, lines)
+    mres = frames.model_lines(mlines)
+    ev = 0
+    for k_, (ln, c, m, eff, (pl, sh, workers, js, nofcs, api)) in enumerate(zip(lines, cres, mres, effs, hist)):
+        ev += 1
+        if c is None:
+            ctx.violation("a pledged-size call history never returned, or the process died (worker threads=%d): %s ; lines before it on the same context: %s" % (workers, ln, " | ".join(lines[max(0, k_ - 3):k_])),
+                          dict(kind="monitor", op=ln, previous=lines[max(0, k_ - 6):k_], xharness=True))
+            continue
+        if sh is None:
+            if not c.startswith("abandoned") and not c.startswith("err"):
+                ctx.violation("abandoned-frame history answered %r: %s" % (c, ln), dict(kind="monitor", op=ln, impl=c, xharness=True))
+            continue
+        sup = sum(n for d, n in sh)
+        mpl = -1 if (api == 1 and pl == 0) else pl
+        cok, mok = (c or "").startswith("ok"), m.startswith("ok")
+        rep = dict(kind="monitor", op=ln, impl=c, model=m, xharness=True)
+        first_is_end = (not eff) or eff[0][0] == "e"
+        if not (cok or c.startswith("err")):
+            ctx.violation("pledged-size history did not finish: %s -> %s" % (ln, c[:80]), rep); continue
+        if cok and mpl >= 0 and mpl != sup:
+            ctx.violation("pledged %d bytes, supplied %d (workers=%d, calls %s), compression succeeded: %s" % (pl, sup, workers, ln.split()[2], c), rep,
+                          key="C09-pledge-overridden-when-first-call-is-end" if first_is_end else None)
+        if cok:
+            kv = dict(t.split("=", 1) for t in c.split()[1:])
+            if kv["dec"] != "ok" or kv["fed"] != str(sup) or kv["fcs"] not in ("-1", str(sup)):
+                ctx.violation("frame produced under a pledge does not hold / announce exactly what was supplied (%d bytes, workers=%d, calls %s): %s" % (sup, workers, ln.split()[2], c), rep)
+        if cok != mok:
+            ctx.violation("pledge bookkeeping: implementation %r vs model %r on %s" % (c, m, ln), dict(rep, kind="tie", correspondence="Walker.Pledge vs ZSTD_compressStream2"), no_input=True)
+        if len(ctx.violations) >= 8:
+            break
+    return dict(evaluations=ev, histories=len(lines), sample=dict(op=lines[0], impl=cres[0], model=mres[0]))
+
+
+def _hdr(f, magicless):
+    """(window size, content size or None) of a frame header, None when it cannot be read in that format"""
+    o = 0 if magicless else 4
+    if len(f) < o + 2 or (not magicless and f[:4] != b"\x28\xb5\x2f\xfd"):
+        return None
+    fhd = f[o]; single = (fhd >> 5) & 1; fcsid = fhd >> 6; did = fhd & 3
+    if fhd & 8:
+        return None
+    pos = o + 1
+    win = None
+    if not single:
+        wd = f[pos]; pos += 1
+        e, mnt = wd >> 3, wd & 7
+        win = (1 << (10 + e)) + ((1 << (10 + e)) >> 3) * mnt
+    pos += [0, 1, 2, 4][did]
+    width = [1 if single else 0, 2, 4, 8][fcsid]
+    fcs = int.from_bytes(f[pos:pos + width], "little") + (256 if width == 2 else 0) if width else None
+    if single:
+        win = fcs
+    return win, fcs
+
+
+def dctx_histories(ctx):
+    """histories on one ZSTD_DCtx: decompression parameters set, ZSTD_DCtx_reset(session_only | parameters | session_and_parameters), then frames
+    decoded.  After every operation ALL parameters are read back and compared with the parameter model (zvdriver params, rows and defaults regenerated
+    from the tree); every decoding verdict is compared with what the model's parameter values imply: the independent decoder run with the options in
+    force (format, checksum verification, block-size limit; zvdriver dec decopt) and, for streaming, the window limit.  In particular after a reset of
+    the parameters a damaged checksum is reported again, a magicless frame is refused, a window above the default limit is refused."""
+    rng = zv.Rng(ctx.seed * 15485863 + 77)
+    exe = xharness(); dexe = frames.harness()
+    dps = ctx.gen["dps"]
+    idlist = [p["id"] for p in dps]
+    # frames
+    c1 = datagen.text(rng, rng.randint(2500, 6000)); c2 = datagen.randbytes(rng, rng.randint(1500, 5000))
+    fo = frames.run_lines(dexe, ["comp 3 1 " + c1.hex(), "comp 1 1 " + c2.hex(), "comp 3 5 " + c1.hex(), "comp 3 0 " + c1.hex(), "xxh " + c2.hex(), "comp 1 5 " + c2.hex()])[1]
+    if any(o.startswith("err") for o in fo):
+        ctx.violation("could not prepare frames for the decoder histories: %r" % [o[:40] for o in fo], dict(kind="internal"), no_input=True)
+        return dict(evaluations=0)
+    G, R, M, N, MR = bytes.fromhex(fo[0]), bytes.fromhex(fo[1]), bytes.fromhex(fo[2]), bytes.fromhex(fo[3]), bytes.fromhex(fo[5])
+    ck = (int(fo[4].split()[2], 16) & 0xFFFFFFFF).to_bytes(4, "little")
+
+    def flipsum(f):
+        return f[:-4] + (int.from_bytes(f[-4:], "little") ^ (1 << rng.randrange(32))).to_bytes(4, "little")
+
+    def flipraw(f):
+        k = len(f) - 5 - rng.randrange(min(1000, len(c2) - 1)); return f[:k] + bytes([f[k] ^ (1 << rng.randrange(8))]) + f[k + 1:]
+
+    def bigwin(wl):
+        return b"\x28\xb5\x2f\xfd" + bytes([0x84, (wl - 10) << 3]) + len(c2).to_bytes(4, "little") + ((len(c2) << 3) | 1).to_bytes(3, "little") + c2 + ck
+    #            name, bytes, content size
+    fr = [("good", G, len(c1)), ("stored checksum damaged", flipsum(G), len(c1)), ("raw block, good", R, len(c2)), ("content damaged", flipraw(R), len(c2)),
+          ("magicless, good", M, len(c1)), ("magicless, stored checksum damaged", flipsum(M), len(c1)), ("window 2^28", bigwin(28), len(c2)), ("window 2^20", bigwin(20), len(c2)),
+          ("no checksum", N, len(c1)), ("window 2^28, stored checksum damaged", flipsum(bigwin(28)), len(c2)), ("magicless, content damaged", flipraw(MR), len(c2)), ("window 2^27", bigwin(27), len(c2))]
+    DAMAGED = (1, 3, 5, 9, 10)
+
+    def probes(k):
+        out = []
+        for _ in range(k):
+            s_ = rng.randrange(len(fr)); mode = rng.choice("ossm")
+            out.append("probe %d %s %d %d" % (s_, mode, fr[s_][2], rng.choice([1, 7, 100, 1000])))
+        return out
+    after_reset = ["probe 1 o %d 1" % fr[1][2], "probe 1 s %d 7" % fr[1][2], "probe 3 o %d 1" % fr[3][2], "probe 3 s %d 1000" % fr[3][2], "probe 3 m %d 100" % fr[3][2],
+                   "probe 4 o %d 1" % fr[4][2], "probe 5 s %d 100" % fr[5][2], "probe 6 s %d 100" % fr[6][2], "probe 9 s %d 1" % fr[9][2], "probe 7 s %d 1000" % fr[7][2],
+                   "probe 0 o %d 1" % fr[0][2], "probe 0 m %d 100" % fr[0][2], "probe 2 s %d 7" % fr[2][2], "probe 11 s %d 100" % fr[11][2]]
+    hists = []
+    # directed: every parameter at every non-default grid value (and all of them together), then each kind of reset, then the whole battery
+    vals = {p["id"]: sorted({p["lo"], p["hi"], (p["lo"] + p["hi"]) // 2, p["lo"] + 1} - {p["dflt"]}) for p in dps}
+    for r in (2, 3, 1):
+        for p in dps:
+            for v in vals[p["id"]]:
+                mid = probes(2) if rng.random() < 0.5 else []
+                hists.append(["new", "set %d %d" % (p["id"], v)] + mid + ["reset %d" % r] + rng.sample(after_reset, 6 if ctx.quick() else len(after_reset)))
+        allset = ["set %d %d" % (p["id"], rng.choice(vals[p["id"]])) for p in dps if p["id"] != 1000]
+        hists.append(["new"] + allset + ["probe 1 o %d 1" % fr[1][2], "reset %d" % r] + after_reset)
+        hists.append(["new"] + allset + ["set 1000 1", "probe 5 o %d 1" % fr[5][2], "reset %d" % r] + after_reset + ["set 1002 1", "reset %d" % r] + after_reset[:4])
+    # random histories
+    for _ in range(40 if ctx.quick() else 1500):
+        h = ["new"]
+        for _ in range(rng.randint(4, 14)):
+            k = rng.random()
+            if k < 0.4:
+                p = rng.choice(dps); h.append("set %d %d" % (p["id"], rng.choice(vals[p["id"]] + [p["dflt"], p["hi"] + 1, p["lo"] - 1, 0, 1])))
+            elif k < 0.6:
+                h.append("reset %d" % rng.choice([1, 2, 2, 3, 3]))
+            else:
+                h += probes(1)
+        hists.append(h + rng.sample(after_reset, 3))
+    clines = ["ids " + ",".join(map(str, idlist))] + ["frame %d %s" % (k, f.hex()) for k, (nm, f, n) in enumerate(fr)]
+    npre = len(clines)
+    mlines = []
+    for h in hists:
+        for op in h:
+            clines.append(op)
+            if not op.startswith("probe"):
+                mlines.append("new d" if op == "new" else op)
+    rc, cout, cerr = frames.run_lines(exe, clines, timeout=900)
+    mrc, mout_, merr = zv.run([zv.driver_exe(), "params"], "\n".join(mlines) + "\n", timeout=900)
+    mout = mout_.split("\n")
+    ev = 0
+    if rc != 0 or len(cout) != len(clines) or mrc != 0:
+        ctx.violation("decoder-history harness / model did not answer every line (harness rc=%s, %d of %d lines; model rc=%s): %s" % (rc, len(cout), len(clines), mrc, (cerr or merr or "")[-300:]),
+                      dict(kind="monitor", op=clines[min(len(cout), len(clines) - 1)][:200], stderr=(cerr or "")[-2000:]))
+        return dict(evaluations=0)
+    # walk: model state after each op; collect the decoding verdicts the model needs
+    ci, mi = npre, 0
+    walk = []       # (history index, op, C answer, model values or None, model status)
+    for hi_, h in enumerate(hists):
+        mv = None
+        for op in h:
+            if op.startswith("probe"):
+                walk.append((hi_, op, cout[ci], mv, None))
+            else:
+                st, _, vs = mout[mi].partition(" |"); mi += 1
+                mv = vs.split()
+                walk.append((hi_, op, cout[ci], mv, st))
+            ci += 1
+    need = {}
+    for hi_, op, c, mv, st in walk:
+        if st is None:
+            d = dict(zip(idlist, map(int, mv)))
+            need[(d.get(1000, 0), int(d.get(1002, 0) != 0), d.get(1005, 0), int(op.split()[1]))] = None
+    keys = sorted(need)
+    dres = frames.parallel(lambda ch: frames.model_lines(ch), frames.split_chunks(["decopt %d %d %d %d %s" % (k[0], k[1], k[2], fr[k[3]][2], fr[k[3]][1].hex()) for k in keys], 16))
+    for k, r_ in zip(keys, dres):
+        need[k] = r_
+    want_hash = {}
+    bad_hist = set(); rb_reported = set()
+    for hi_, op, c, mv, st in walk:
+        if hi_ in bad_hist:
+            continue
+        ev += 1
+        cst, _, cvs = c.partition(" |")
+        hist_txt = " ; ".join(hists[hi_])
+        rep = dict(kind="monitor", history=hist_txt, op=op, impl=c, model_values=" ".join(mv or []), model_status=st, ids=idlist, frames={nm: f.hex() for nm, f, n in fr})
+        if cvs.split() != mv and hi_ not in rb_reported:
+            rb_reported.add(hi_)      # reported once per history; the decoding verdicts of the history are still compared with what the MODEL's values imply
+            ctx.violation("decoder parameters read back after `%s` differ from the parameter model: ZSTD_DCtx_getParameter gives [%s], model [%s] (ids %s) in history: %s" % (
+                op, cvs.strip(), " ".join(mv), idlist, hist_txt[:300]), dict(rep, kind="tie", correspondence="Params.reset / setParam (dparams) vs ZSTD_DCtx_reset / ZSTD_DCtx_setParameter"))
+        if st is not None:
+            if cst != st:
+                ctx.violation("`%s` on a decoder context answers %s, parameter model %s, in history: %s" % (op, cst, st, hist_txt[:300]), dict(rep, kind="tie", correspondence="Params (dparams) vs ZSTD_DCtx_*"), no_input=True)
+                bad_hist.add(hi_)
+            continue
+        d = dict(zip(idlist, map(int, mv)))
+        _, slot, mode, cap, chunk = op.split(); slot = int(slot)
+        nm, f, n = fr[slot]
+        fmt, ign, mb, stable, wlm = d.get(1000, 0), int(d.get(1002, 0) != 0), d.get(1005, 0), d.get(1001, 0), d.get(100, 27)
+        exp = need[(fmt, ign, mb, slot)]
+        if exp.startswith("err lax:"):
+            continue        # the specification refuses it, some library paths tolerate it (oversized raw / RLE block under ZSTD_d_maxBlockSize): not compared
+        if mode != "o":
+            hd = _hdr(f, fmt == 1)      # the streaming decoder refuses the window as soon as it has read the header ...
+            whole = int(chunk) >= len(f) and hd is not None and hd[1] is not None      # ... unless the whole frame and room for its announced content come with the first call (single-pass shortcut)
+            if hd and hd[0] is not None and not whole and max(hd[0], 1024) > (1 << wlm) + (1 if wlm == 27 else 0):
+                exp = "err window_too_large"
+        if mode == "m" and stable:
+            continue        # a moving output buffer under ZSTD_d_stableOutBuffer: refused or not depending on where the pieces end; not asserted
+        limit_in_play = mb != 0 and mb < n      # then which error comes first depends on the path (block limit, destination room, checksum): only ok / error is compared
+        if exp.startswith("ok"):
+            same = cst == exp
+        elif exp in ("err checksum_wrong", "err window_too_large") and not limit_in_play:
+            same = cst == exp
+        else:
+            same = cst.startswith("err")
+        if not same:
+            dmg = slot in DAMAGED
+            what = ("damaged frame accepted" if (dmg and cst.startswith("ok") and not ign) else "decoding verdict differs from what the parameters in force imply")
+            ctx.violation("%s: frame `%s` (%s), parameters per model %s -> implementation %r, expected %r; history: %s" % (
+                what, nm, {"o": "one-shot", "s": "streaming", "m": "streaming, moving output"}[mode] + " by %s" % chunk, {i: d[i] for i in idlist if d[i] != 0}, cst, exp, hist_txt[:400]), rep)
+            bad_hist.add(hi_)
+        if len(ctx.violations) >= 8:
+            break
+    return dict(evaluations=ev, histories=len(hists), ops=len(walk), verdicts_from_lean=len(keys), sample=dict(history=" ; ".join(hists[0])[:200], last=cout[npre + len(hists[0]) - 1][:80]))
+
+
 def correspondence(ctx):
     exe = frames.harness()
     streams = make_streams(ctx, exe)
@@ -179,7 +468,13 @@ def correspondence(ctx):
                           key="C09-pledge-overridden-when-first-call-is-end" if (mode == 0 and len(chunks) == 1) or supplied == 0 else None)
         if cok != mok:
             ctx.violation("pledge bookkeeping: implementation %r vs model %r on %s" % (c, m, ln), dict(rep, kind="tie", correspondence="Walker.Pledge vs ZSTD_compressStream2"), no_input=True)
-    return dict(evaluations=ev, distinct_nontrivial=len({s["data"] for s in streams if len(s["data"]) > 12}),
+    # (4) pledges over call histories with flushes and worker threads (small inputs, both directions, legacy entry points), model Walker.Pledge
+    plh = pledge_histories(ctx)
+    ev += plh.get("evaluations", 0)
+    # (5) decoder histories: parameters set, reset, frames decoded - read-back against the parameter model, verdicts against the independent decoder
+    dch = dctx_histories(ctx)
+    ev += dch.get("evaluations", 0)
+    return dict(evaluations=ev, pledge_call_histories=plh, decoder_histories=dch, distinct_nontrivial=len({s["data"] for s in streams if len(s["data"]) > 12}),
                 rule="frame streams = single frames of every header layout (checksum / content-size flags, levels) + multi-frame compositions with skippable frames; "
                      "EVERY cut point of each stream (<= 1500 bytes; sampled + all boundaries beyond) through one-shot and streaming decoding and through the walker model; "
                      "trailing garbage, content-size lies, every bit of the stored checksum, pledges around the supplied size over random call histories; distinct = distinct stream bytes",
@@ -188,6 +483,14 @@ def correspondence(ctx):
 
 def replay(ctx, data):
     exe = frames.harness()
+    if data.get("history"):
+        fl = list((data.get("frames") or {}).values())
+        lines = ["ids " + ",".join(map(str, data.get("ids", [])))] + ["frame %d %s" % (k, h) for k, h in enumerate(fl)] + data["history"].split(" ; ")
+        out = frames.run_lines(xharness(), lines)[1]
+        return dict(violates=True, note="history re-executed on a fresh process; compare with the description", answers=out[1 + len(fl):])
+    if data.get("xharness"):
+        c = frames.run_lines(xharness(), [data["op"]])[1]
+        return dict(violates=("pledged" in data.get("description", "") or "pledge" in data.get("description", "")) and bool(c) and c[0].startswith("ok"), impl=c, model=data.get("model"))
     if data.get("op"):
         c = frames.run_lines(exe, [data["op"]])[1]; m = frames.model_lines([data["op"]])
         return dict(violates=c[0].startswith("ok") != m[0].startswith("ok") or "pledged" in data.get("description", ""), impl=c, model=m)
